@@ -37,3 +37,21 @@ From RS Require Import LoadStmts LoadFacts EndToEndStmts NoPanicFactsA PipelineT
 Theorem C06_pipeline_never_crashes : stmt_pipeline_never_crashes_loaded.
 Proof. exact pipeline_never_crashes_loaded. Qed.
 Print Assumptions C06_pipeline_never_crashes.
+
+(** the same with every hypothesis in the executable form the driver evaluates on every pipeline run (HYP lines) *)
+From RS Require Import SchedObs Output Transition Schedule Swaps PipelineSched Render NoPanicStmts Hyps Hyps2 PipelineTotalChecked.
+Theorem C06_pipeline_never_crashes_checked_hypotheses :
+  forall i perm nw,
+    valid_instance_b i = true -> inst_unsigned_b i = true -> params_costs_nonneg_b (i_params i) = true ->
+    perm_ok i perm -> load i perm = Ok nw ->
+    forall tours,
+      tours_ok_b nw tours = true -> tours_typed_b nw tours = true -> tours_within_limits_b nw tours = true ->
+      fleet_fits_overflow_b nw tours = true ->
+      exists s0 s1, from_tours nw tours = Ok s0 /\ improve_depots nw s0 None = Ok s1 /\
+        forall ls, ls_path nw s1 ls ->
+          no_crash (neighbors nw ls) /\
+          forall trans, trans_valid nw ls trans ->
+            exists final out, reassign_end_depots_consistent nw (set_next_day_transitions ls trans) = Ok final /\
+                              render nw final = Ok out.
+Proof. exact pipeline_never_crashes_checked. Qed.
+Print Assumptions C06_pipeline_never_crashes_checked_hypotheses.
